@@ -105,7 +105,7 @@ def deinv(model: 'Model', triple: 'tuple') -> 'tuple':
     return triple
 
 
-@spec
+@spec(opaque=True)
 def with_pop(entries: 'list') -> 'list':
     """POP is recorded on the last triple of a nested node"""
     return entries[:-1] + [(entries[-1][0], entries[-1][1] + [mk('Pop')])]
